@@ -348,3 +348,22 @@ package types
 //@   modifies all
 //@   ensures [no-shortcut] err == nil ==> height == ctxHeight(iface(c)) || cacheHit || storeHit
 //@   ensures [current] height == ctxHeight(iface(c)) ==> err == nil
+
+// ---- C36: parameter store writes as call events ----------------------------------------------
+//@ ghost paramUpdN int
+//@ ghost paramUpdKey Bytes
+//@ ghost paramUpdSpace Subspace
+//@ func (Subspace).Update
+//@   trusted call event only: records which (subspace, key) was written (store + codec effects not modelled)
+//@   modifies paramUpdN, paramUpdKey, paramUpdSpace
+//@   ensures paramUpdN == old(paramUpdN) + 1 && paramUpdKey == bytes(key) && paramUpdSpace == s
+//@ func (Subspace).Set
+//@   trusted call event only: records which (subspace, key) was written (store + codec effects not modelled)
+//@   modifies paramUpdN, paramUpdKey, paramUpdSpace
+//@   ensures paramUpdN == old(paramUpdN) + 1 && paramUpdKey == bytes(key) && paramUpdSpace == s
+//@ func (Subspace).Get
+//@   trusted parameter read (store + codec): the pointed-to value is overwritten
+//@   modifies heap
+
+// coin constructors as call-free functions of their arguments (see C41 for the arithmetic)
+//@ pure coinsOf(amount int) Coins
